@@ -80,3 +80,15 @@ package ugm
 //@   ensures[leaf] len(hierarchy) == 1 && !(doWildCardCheck && !old(qt.useWildCard)) ==> qt.maxRunningApps == maxApps && qt.maxResources == maxResource && qt.useWildCard == useWildCard
 //@   ensures[named] len(hierarchy) == 1 && doWildCardCheck && !old(qt.useWildCard) ==> qt.maxRunningApps == old(qt.maxRunningApps) && qt.maxResources == old(qt.maxResources) && !qt.useWildCard
 //@   at[down] call ugm.QueueTracker.setLimit#1: assert arg0 == qt.childQueueTrackers[hierarchy[1]] && arg0 != nil && suffix1(arg1, hierarchy) && arg2 == maxResource && arg3 == maxApps && arg4 == useWildCard && arg5 == trackType && arg6 == doWildCardCheck
+
+// reload: the wild card limit of every queue path of the new configuration is (re)applied to every existing user tracker
+// that has no named limit there - no queue path and no tracker is skipped, whatever the previous configuration said
+//@ func (m *Manager) applyWildCardUserLimits(newUserWildCardLimits map[string]*LimitConfig, newUserLimits map[string]map[string]*LimitConfig)
+//@   props C05
+//@   sweep
+//@   mode nopanic=off
+//@   loop 1: exhaustive
+//@   loop 1: each ndone(2) == iter(ndone(2)) + 1
+//@   loop 2: exhaustive
+//@   loop 2: each !(ut.userName in newUserLimits[queuePath]) ==> ncalls(ugm.UserTracker.setLimits) == iter(ncalls(ugm.UserTracker.setLimits)) + 1
+//@   at[wild] call ugm.UserTracker.setLimits#1: assert arg0 == ut && arg1 == queuePath && arg2 == newLimitConfig.maxResources && arg3 == newLimitConfig.maxApplications && arg4 && !arg5
